@@ -254,6 +254,9 @@ class CGraph:
         utpm_x_list = []
         for xi in x_list:
             element = numpy.asarray(xi).reshape((1,1) + numpy.shape(xi))
+            if element.dtype.kind in 'iub':
+                # an integer typed point: the sweeps need floating point coefficients
+                element = element.astype(float)
             utpm_x_list.append(algopy.UTPM(element))
 
         self.pushforward(utpm_x_list)
